@@ -665,6 +665,53 @@ def embedding(rec):
                               observe.short(want, 300), observe.short(got, 300))
 
 
+# -- (c3) a later Grammar() re-uses the name of a live module ---------------------------------------
+
+REUSE_OTHER = '''grammar {A}
+start = Item+
+Item = "x" | "y"
+Word = /[xy]+/
+'''
+
+
+def name_reuse(rec):
+    """A base and its extension are in use; then another description is compiled under the base's
+    name (and one under the extension's).  The existing module objects -- module-level parse, their
+    own rules and the rules / classes the extension inherited -- answer as before.  Flat and dotted
+    names (a dotted module is also an attribute of its package)."""
+    texts = ['a', 'c', 'a b', '<a>', '{c}', 'x', 'xy', '', 'a c', '< b >']
+    for dotted in (False, True):
+        uid = diff.unique_name('vt_c18r')
+        a, b = ('%s_pkg.core' % uid, '%s_pkg.ext' % uid) if dotted else (uid + '_core', uid + '_ext')
+        try:
+            ra = observe.compile_grammar(FAMILY_BASE.format(A=a) + 'Word = /[ab]+/\nclass Pt {{ x: Item; y: Item? }}\n'.format())
+            rb = observe.compile_grammar(FAMILY_EXT.format(A=a, B=b))
+            if ra[0] != 'ok' or rb[0] != 'ok':
+                rec.violation('name-reuse:grammar-error', 'Grammar() of the family', dict(kind='c18', mode='name-reuse', dotted=dotted), 'modules', (ra[:2], rb[:2]))
+                continue
+            ga, gb = ra[1], rb[1]
+            calls = [(g, e, t) for g, es in ((ga, (None, 'Item', 'Word', 'Pt')), (gb, (None, 'Item', 'start', 'Word', 'Pt'))) for e in es for t in texts]
+            before = [outcome(g, (e, t, 0, True)) for g, e, t in calls]
+            steps = [('base name re-used', REUSE_OTHER.format(A=a)),
+                     ('extension name re-used', 'grammar %s\nstart = "q"*\nItem = "q"\n' % b),
+                     ('base name re-used by an extension of the old extension name', 'grammar %s extends %s\nItem = "z"\n' % (a, b))]
+            for what, d in steps:
+                r = observe.compile_grammar(d)
+                rec.count('names_reused')
+                for (g, e, t), want in zip(calls, before):
+                    got = outcome(g, (e, t, 0, True))
+                    rec.case()
+                    rec.nontrivial(('name-reuse', dotted, what, g is gb, e, t))
+                    if not observe.same_outcome(want, got):
+                        rec.violation('name-reuse:%s->%s' % (observe.outcome_class(want[0]), observe.outcome_class(got[0])),
+                                      'existing module after its name (or its parent\'s name) was re-used vs. before',
+                                      dict(kind='c18', mode='name-reuse', dotted=dotted, step=what, module='extension' if g is gb else 'base',
+                                           entry=e, text_repr=repr(t)), want, got)
+        finally:
+            for n in (a, b, a.rsplit('.', 1)[0]):
+                sys.modules.pop(n, None)
+
+
 # -- (b) schedule stress ------------------------------------------------------------------------
 
 TOOL_YIELD = 1
@@ -868,6 +915,7 @@ def run_shard(rec):
     leaks(rec, ts)
     reentrancy(rec, ts, 6 if quick else 40)
     embedding(rec)
+    name_reuse(rec)
     digests = set()
     rounds = 3 if quick else 20
     for r in range(rounds):
